@@ -99,6 +99,34 @@ func (r *Run) builtin(fr *Frame, b *ssa.Builtin, cc *ssa.CallCommon, args []Valu
 			m.entries = append(m.entries, MapEntry{k: args[1], del: true})
 		}
 		return nil
+	case "String": // unsafe.String(ptr, len)
+		p, ok := args[0].(*PtrV)
+		n := int(r.concretise(args[1].(*Term), "unsafe.String len"))
+		if n == 0 {
+			return &StrV{}
+		}
+		if !ok || p.obj == nil || len(p.path) == 0 || p.path[len(p.path)-1].idx == nil {
+			endPath("engine", "unsafe.String of %T", args[0])
+		}
+		base := &PtrV{obj: p.obj, path: p.path[:len(p.path)-1]}
+		arr, ok2 := r.loadPath(r.force(&base.obj.val), base.path, site).(ArrayV)
+		off := int(r.concretise(p.path[len(p.path)-1].idx, "unsafe.String offset"))
+		if !ok2 || off+n > len(arr) {
+			endPath("engine", "unsafe.String out of its array")
+		}
+		out := &StrV{b: make([]*Term, n)}
+		for i := 0; i < n; i++ {
+			out.b[i] = arr[off+i].(*Term)
+		}
+		return out
+	case "SliceData":
+		sl := args[0].(*SliceV)
+		if sl.arr == nil {
+			return &PtrV{}
+		}
+		return &PtrV{obj: sl.arr, path: append(append([]PathElem{}, sl.base...), PathElem{idx: BVi(int64(sl.off), 64)})}
+	case "StringData":
+		endPath("engine", "unsafe.%s unsupported", b.Name())
 	case "print", "println":
 		return nil
 	case "recover":
